@@ -1,11 +1,15 @@
 PROP = {
     "id": "C35",
     "theorem_modules": ["Verif.Properties.C35"],
-    "min_theorems": 5,
+    "min_theorems": 9,
     "required_theorems": [
         "Verif.Properties.C35.byte_limits_ok",
         "Verif.Properties.C35.leb_u32_roundtrip",
         "Verif.Properties.C35.leb_u64_roundtrip",
+        "Verif.Properties.C35.instr_table_ok",
+        "Verif.Properties.C35.instr_table_consistent",
+        "Verif.Properties.C35.instr_roundtrip",
+        "Verif.Properties.C35.instr_decodeAll_roundtrip",
     ],
     "gen": [["vtool", "gen-lebfacts"], ["vtool", "gen-instr"]],
     "tool_files": ["tool_lebfacts.go", "tool_instr.go"],
